@@ -41,8 +41,8 @@ Definition ex_oracles : oracles :=
                             | _ => AP_nobracket end;
      o_ext := fun _ => Ext_ok 0 0 None; o_relay := 0%Z; o_mx := fun _ => 0;
      o_qq := fun k => match k with 0 => QQ_exit 31 | _ => QQ_ok end;
-     o_databytes := 0%N; o_liphost := []; o_check2822 := false; o_authperm := false; o_auth := fun _ => Auth_multi; o_trace := fun _ _ _ _ _ _ => [88; 10]%N;
-              o_submission := false; o_subm_date := []; o_subm_stamp := []; o_msgidhost := [] |}.
+     o_databytes := 0%N; o_liphost := []; o_check2822 := false; o_authperm := false; o_auth := fun _ => Auth_multi; o_trace := fun _ _ _ _ _ _ _ => [88; 10]%N;
+              o_submission := false; o_subm_date := []; o_subm_stamp := []; o_msgidhost := []; o_tls := false; o_tlsverify := TV_no |}.
 Definition ex_chunks : list bytes :=
   [ [72;69;76;79;32;120;13;10]; [77;65;73;76;32;70;82;79;77;58;60;97;62;13;10];
     [82;67;80;84;32;84;79;58;60;98;62;13;10]; [68;65;84;65;13;10]; [104;105;13;10;46;13;10];
